@@ -510,3 +510,117 @@ func trunc(s string, n int) string {
 	}
 	return s
 }
+
+// ------------------------------------------------------------------ C07.R7
+// "exactly that block id" and "the set's total power" rest on three helpers the verifiers call:
+// (a) BlockID.Equals is full equality (hash and part-set header; header equality is total and hash);
+// (b) the cached total power is the clipped sum of the members and never above MaxTotalVotingPower — the
+//     threshold total*2/3 is computed without overflow check and wraps negative above MaxInt64/2;
+// (c) a wrapper that is handed a block id and a commit verifies the commit for *that* id, not for the id
+//     the commit itself carries.
+func init() {
+	register("C07", "R7", "K1", "block-id equality is full equality; the cached total power is bounded; verifier wrappers pass the block id they were given", 7, func(c *Ctx) {
+		w := c.W
+		if f := c.fn("types", "BlockID.Equals"); f != nil {
+			for _, g := range []Guard{
+				guardRe("hashes equal", `^true\(bytes\.Equal\(blockID\.Hash, other\.Hash\)\)$`),
+				guardRe("part-set headers equal", `^true\(blockID\.PartSetHeader\.Equals\(other\.PartSetHeader\)\)$`),
+			} {
+				c.Check(c.ge().ensures(f, g, 1), "types.BlockID.Equals is true only if "+g.Name, w.pos(f.Pos()), "on every true return", "BlockID.Equals can answer true without: "+g.Name)
+			}
+		}
+		if f := c.fn("types", "PartSetHeader.Equals"); f != nil {
+			for _, g := range []Guard{
+				guardCmp("part counts equal", `psh\.Total`, "==", `other\.Total`),
+				guardRe("part-set hashes equal", `^true\(bytes\.Equal\(psh\.Hash, other\.Hash\)\)$`),
+			} {
+				c.Check(c.ge().ensures(f, g, 1), "types.PartSetHeader.Equals is true only if "+g.Name, w.pos(f.Pos()), "on every true return", "PartSetHeader.Equals can answer true without: "+g.Name)
+			}
+		}
+		// (b)
+		if f := c.fn("types", "ValidatorSet.updateTotalVotingPower"); f != nil {
+			fk := funcKey(f)
+			max := c.mustConst("types", "MaxTotalVotingPower")
+			n := 0
+			for _, fs := range w.fieldStoresIn(f, "types", "ValidatorSet", "totalVotingPower") {
+				n++
+				phi, ok := fs.Store.Val.(*ssa.Phi)
+				if !c.Check(ok, fk+" :: total is accumulated over the members", w.ipos(fs.Store), "loop accumulator", "totalVotingPower = "+w.expr(fs.Store.Val)) {
+					continue
+				}
+				for i, e := range phi.Edges {
+					if k, isC := constInt(e); isC && k == 0 {
+						continue
+					}
+					call := valueCall(e)
+					okAdd := call != nil && w.isCall(call, "types#safeAddClip") && strings.HasSuffix(w.expr(call.Common().Args[1]), ".VotingPower")
+					c.Check(okAdd, fk+" :: each step adds a member's power with the clipping add", w.ipos(fs.Store), "safeAddClip(sum, val.VotingPower)", "accumulated with "+w.expr(e))
+					ev := e
+					g := Guard{Name: "running sum within MaxTotalVotingPower (else panic)", Match: func(w *World, ff *ssa.Function, a Atom) bool {
+						if a.Kind != "cmp" {
+							return false
+						}
+						x, y, op := a.X, a.Y, a.Op
+						if sameValue(y, ev) {
+							x, y, op = y, x, flipOp(op)
+						}
+						k, isC := constInt(y)
+						return sameValue(x, ev) && isC && (op == token.LEQ && k == max || op == token.LSS && k == max+1)
+					}}
+					okG, _ := c.ge().guardedEdge(f, phi.Block().Preds[i], phi.Block(), g, 0)
+					c.Check(okG, fk+" :: the sum carried to the next member is within the cap", w.ipos(fs.Store), "sum <= MaxTotalVotingPower on the back edge", "the running sum is not compared with MaxTotalVotingPower before it is carried on: a total above the cap can be cached (the 2/3 threshold then overflows)")
+				}
+			}
+			c.Check(n == 1, fk+" :: one store of the cached total", w.pos(f.Pos()), "1", fmt.Sprintf("%d", n))
+		}
+		// (c)
+		k := newKeyer()
+		nw := 0
+		for _, f := range w.Funcs {
+			if f.Parent() != nil || strings.HasSuffix(w.Fset.Position(f.Pos()).Filename, "_test.go") {
+				continue
+			}
+			var idParam, commitParam *ssa.Parameter
+			for _, p := range f.Params {
+				switch p.Type().String() {
+				case "github.com/tendermint/tendermint/types.BlockID":
+					idParam = p
+				case "*github.com/tendermint/tendermint/types.Commit":
+					commitParam = p
+				}
+			}
+			if idParam == nil || commitParam == nil || isMethodOf(f, "types", "ValidatorSet") {
+				continue
+			}
+			for _, call := range w.callsTo(f, "types#ValidatorSet.VerifyCommit", "types#ValidatorSet.VerifyCommitLight", "types#ValidatorSet.VerifyCommitLightTrusting") {
+				args := callArgs(call)
+				if len(args) < 4 || !sameValue(derefParam(args[len(args)-1]), commitParam) && !sameValue(args[3], commitParam) {
+					continue
+				}
+				nw++
+				c.Check(sameValue(derefParam(args[1]), idParam), k.key(f, "verifies the commit for the block id it was given"), w.ipos(call), "block id parameter passed through", "the commit is verified for "+w.expr(args[1])+" instead of the block id handed to "+funcKey(f)+": a commit for any other block passes")
+			}
+		}
+		c.Check(nw >= 1, "verifier wrappers found", "-", ">= 1", fmt.Sprintf("%d", nw))
+	})
+}
+
+// derefParam: a by-value parameter that was spilled to an alloc renders as a load; follow it back.
+func derefParam(v ssa.Value) ssa.Value {
+	v = stripConv(v)
+	if u, ok := v.(*ssa.UnOp); ok && u.Op == token.MUL {
+		if a, ok := u.X.(*ssa.Alloc); ok {
+			var src ssa.Value
+			n := 0
+			for _, r := range *a.Referrers() {
+				if st, ok := r.(*ssa.Store); ok && st.Addr == ssa.Value(a) {
+					src, n = st.Val, n+1
+				}
+			}
+			if n == 1 {
+				return stripConv(src)
+			}
+		}
+	}
+	return v
+}
